@@ -212,6 +212,17 @@ CLAIMED["C10"] = dict(
          "behaviour callers may rely on). String building is outside the solver-friendly subset (uninterpreted strings, equality only).",
     technique=TECH + "; symbolic dictionaries; known-finding regions excluded by sibling obligations",
 )
+CLAIMED["C07"] = dict(
+    level="other",
+    text="Bounded deductive check (labelled bounded, not counted as proved): the real match_geometries and _select_matches bodies "
+         "are verified for all list lengths n, m <= 2 with symbolic affinities against the full statement (coverage exactly once, "
+         "positive-affinity pairs reporting the pair's affinity, one-sided entries 0, sum = optimum over one-to-one pairings), "
+         "relative to the scipy linear_sum_assignment contract; plus the exhaustive stand-in matching_small (all <= 3 x 3 box "
+         "configurations on a lattice, random mixed geometries to 6 x 6, brute-force optimum) on the real scipy.",
+    note="Unbounded list lengths would need set-difference iteration and product-loop matrix summaries that the engine does not have; "
+         "the bound (n, m <= 2 symbolic; <= 3 x 3 / 6 x 6 concrete) is stated. One defect fixed in /repo (645b804: zero-affinity pairs).",
+    technique=TECH + ", bounded in list length (n, m <= 2); exhaustive stand-in",
+)
 ALL = [f"C{n:02d}" for n in range(1, 21)]
 NOT_APPLICABLE = {p: "check not built yet in this session (work in progress; see DESIGN.md section 12 build order)"
                   for p in ALL if p not in CLAIMED}
